@@ -121,15 +121,21 @@ type caseState struct {
 	overrun     bool
 	rt          atomic.Int64 // index of the RoundTrip in flight (-1 before Send)
 	wire        [16]atomic.Int64
+	clientConns []net.Conn
 	dialed      []string // local addresses of the connections the client opened
 	stopped     atomic.Bool
 	rtAfterStop atomic.Bool
 }
 
+type connInfo struct {
+	addr string // client address
+	st   http.ConnState
+}
+
 type worker struct {
 	srv   *httptest.Server
 	cmu   sync.Mutex
-	conns map[string]http.ConnState // by client address
+	conns map[net.Conn]*connInfo // server-side connections accepted since the current case started
 	cur   atomic.Pointer[caseState]
 	seq   int
 	stray atomic.Int64
@@ -145,10 +151,14 @@ func newWorker() (*worker, error) {
 	w.dir = dir
 	w.srv = httptest.NewUnstartedServer(http.HandlerFunc(w.handle))
 	w.srv.Config.ErrorLog = nil
-	w.conns = map[string]http.ConnState{}
+	w.conns = map[net.Conn]*connInfo{}
 	w.srv.Config.ConnState = func(c net.Conn, st http.ConnState) {
 		w.cmu.Lock()
-		w.conns[c.RemoteAddr().String()] = st
+		if ci := w.conns[c]; ci != nil {
+			ci.st = st
+		} else if st == http.StateNew {
+			w.conns[c] = &connInfo{addr: c.RemoteAddr().String(), st: st}
+		} // else: late event of a connection of an earlier case
 		w.cmu.Unlock()
 	}
 	w.srv.Start()
@@ -239,18 +249,20 @@ func (w *worker) handle(rw http.ResponseWriter, r *http.Request) {
 	rw.WriteHeader(code)
 }
 
-var reDigits = regexp.MustCompile(`[0-9]+`)
+var rePath = regexp.MustCompile(`/c34/[0-9]+/`)
+var reFile = regexp.MustCompile(`/[^ :"]*/body-[0-9]+`)
 var reAddr = regexp.MustCompile(`127\.0\.0\.1:[0-9]+(->127\.0\.0\.1:[0-9]+)?`)
 
 func normErr(s string) string {
 	s = reAddr.ReplaceAllString(s, "ADDR")
-	s = regexp.MustCompile(`/c34/[0-9]+/`).ReplaceAllString(s, "/c34/N/")
+	s = rePath.ReplaceAllString(s, "/c34/N/")
+	s = reFile.ReplaceAllString(s, "BODYFILE")
 	return s
 }
 
 // quiesce waits until the server has accepted every connection the client
-// opened and none of them is being served any more (so that everything the
-// client put on the wire has been recorded).
+// opened and has finished with it (closed or hijacked-and-closed), so that
+// everything the client put on the wire has been recorded.
 func (w *worker) quiesce(cs *caseState) error {
 	for i := 0; ; i++ {
 		busy := ""
@@ -258,22 +270,19 @@ func (w *worker) quiesce(cs *caseState) error {
 		dialed := append([]string(nil), cs.dialed...)
 		cs.mu.Unlock()
 		w.cmu.Lock()
+		byAddr := map[string]http.ConnState{}
+		for _, ci := range w.conns {
+			byAddr[ci.addr] = ci.st
+		}
+		w.cmu.Unlock()
 		for _, d := range dialed {
-			st, ok := w.conns[d]
-			if !ok || st == http.StateNew || st == http.StateActive {
+			st, ok := byAddr[d]
+			if !ok || (st != http.StateClosed && st != http.StateHijacked) {
 				busy = fmt.Sprintf("%s: %v (known %v)", d, st, ok)
 				break
 			}
 		}
-		w.cmu.Unlock()
 		if busy == "" {
-			w.cmu.Lock()
-			for _, d := range dialed {
-				if st := w.conns[d]; st == http.StateClosed || st == http.StateHijacked {
-					delete(w.conns, d)
-				}
-			}
-			w.cmu.Unlock()
 			return nil
 		}
 		if i > 20000 {
@@ -428,6 +437,9 @@ func (w *worker) exec(c Case) (*Obs, error) {
 	default:
 		return nil, fmt.Errorf("unknown body kind %q", cfg.Body)
 	}
+	w.cmu.Lock()
+	w.conns = map[net.Conn]*connInfo{} // every connection of earlier cases is finished (see the end of exec)
+	w.cmu.Unlock()
 	w.cur.Store(cs)
 	cs.rt.Store(-1)
 	var dialer net.Dialer
@@ -439,6 +451,7 @@ func (w *worker) exec(c Case) (*Obs, error) {
 			}
 			cs.mu.Lock()
 			cs.dialed = append(cs.dialed, c.LocalAddr().String())
+			cs.clientConns = append(cs.clientConns, c)
 			cs.mu.Unlock()
 			return &wireConn{Conn: c, cs: cs}, nil
 		}}
@@ -489,6 +502,15 @@ func (w *worker) exec(c Case) (*Obs, error) {
 		resp.Body.Close()
 	}
 	tr.CloseIdleConnections()
+	// Close every connection the client opened (Send leaves the ones whose
+	// response body it did not close) and wait until the server has consumed
+	// everything that was written to them: in-order delivery means a pending
+	// request is handled before the server sees the close.
+	cs.mu.Lock()
+	for _, c := range cs.clientConns {
+		c.Close()
+	}
+	cs.mu.Unlock()
 	if err := w.quiesce(cs); err != nil {
 		return nil, fmt.Errorf("%v script %v: %v", cfg, c.Script, err)
 	}
@@ -507,6 +529,12 @@ func (w *worker) exec(c Case) (*Obs, error) {
 			o.RoundTrips[i].Wire = cs.wire[i].Load()
 		}
 	}
+	for _, r := range o.RoundTrips {
+		if strings.Contains(r.Err, "dial tcp") {
+			// the server is listening for the whole run: a failed dial is an environment problem, never a finding
+			return nil, fmt.Errorf("%v script %v: %s", cfg, c.Script, r.Err)
+		}
+	}
 	o.Backoff = bo.out
 	o.RTAfterStop = cs.rtAfterStop.Load()
 	if n := w.stray.Load(); n > 0 {
@@ -523,11 +551,11 @@ type vio struct{ fp, msg string }
 func bodyClass(cfg Config) string {
 	switch cfg.Body {
 	case "bytes.Reader", "strings.Reader", "bytes.Buffer":
-		return "body with net/http GetBody (" + cfg.Body + ")"
+		return "body with net/http GetBody"
 	case "none":
 		return "no body"
 	}
-	return "body without GetBody (" + cfg.Body + ")"
+	return "body without GetBody"
 }
 
 func headersEqual(a, b http.Header) bool {
@@ -601,7 +629,7 @@ func check(c Case, o *Obs) []vio {
 			if i > 0 {
 				which = "retry"
 			}
-			add(fmt.Sprintf("%s sent no request at all: %s [%s]", which, errClass(rt.Err), bodyClass(cfg)),
+			add(fmt.Sprintf("%s put nothing on the wire [%s]", which, bodyClass(cfg)),
 				"attempt %d of Send failed client-side with nothing written to the connection: %s", i, rt.Err)
 		}
 	}
@@ -634,24 +662,10 @@ func check(c Case, o *Obs) []vio {
 	return vs
 }
 
-func errClass(e string) string {
-	switch {
-	case strings.Contains(e, "ContentLength=") && strings.Contains(e, "with Body length"):
-		return "http: ContentLength=N with Body length M"
-	case strings.Contains(e, "file already closed"):
-		return "request body already closed"
-	}
-	e = reDigits.ReplaceAllString(e, "N")
-	if len(e) > 70 {
-		e = e[:70]
-	}
-	return e
-}
-
 // ---------------------------------------------------------------------------
 // enumeration
 
-func alphabet(cfg Config, thorough bool) []string {
+func alphabet(cfg Config, rich bool) []string {
 	al := []string{"X"}
 	if cfg.Body != "none" && cfg.Size > 0 {
 		n := cfg.Size
@@ -663,15 +677,15 @@ func alphabet(cfg Config, thorough bool) []string {
 		} else {
 			ks = []int{0, 1, n / 2, n - 1}
 		}
-		if !thorough && len(ks) > 2 {
+		if !rich && len(ks) > 2 {
 			ks = []int{0, n - 1}
 		}
 		for _, k := range ks {
 			al = append(al, fmt.Sprintf("X@%d", k))
 		}
 	}
-	if thorough {
-		return append(al, "429e", "502e", "502b", "503e", "503b", "504e", "400e", "500e", "200e", "200b", "404e", "404b")
+	if rich {
+		return append(al, "429e", "502e", "503e", "503b", "504e", "400e", "400b", "500e", "200e", "200b", "404e")
 	}
 	return append(al, "429e", "503e", "503b", "400e", "200e", "200b", "404e")
 }
@@ -679,7 +693,7 @@ func alphabet(cfg Config, thorough bool) []string {
 type stats struct {
 	mu       sync.Mutex
 	counters map[string]int64
-	maxDepth int
+	vios     map[string]*vioRec
 }
 
 func (s *stats) add(k string, d int64) {
@@ -691,8 +705,8 @@ func (s *stats) add(k string, d int64) {
 const depthSlack = 3 // server-side requests may exceed Send's attempts (net/http replays idempotent requests on a dead pooled connection)
 
 // explore enumerates the answer tree of one config depth-first.
-func (w *worker) explore(run *evid.Run, st *stats, cfg Config, thorough bool, deadline time.Time) error {
-	al := alphabet(cfg, thorough)
+func (w *worker) explore(run *evid.Run, st *stats, cfg Config, rich bool, deadline time.Time) error {
+	al := alphabet(cfg, rich)
 	maxRT := 1
 	if cfg.Retries > 0 {
 		maxRT = 1 + cfg.Retries
@@ -704,11 +718,30 @@ func (w *worker) explore(run *evid.Run, st *stats, cfg Config, thorough bool, de
 			return nil
 		}
 		c := Case{Config: cfg, Script: append([]string(nil), prefix...)}
-		o, err := w.exec(c)
-		if err != nil {
-			return err
+		st.add(fmt.Sprintf("executions retries=%d rich_alphabet=%v", cfg.Retries, rich), 1)
+		var o *Obs
+		for try := 0; ; try++ {
+			var err error
+			if o, err = w.exec(c); err != nil {
+				return err
+			}
+			run.Eval(1)
+			if len(o.Attempts) >= len(prefix) {
+				break
+			}
+			// The parent script made Send ask for this answer, this run did not:
+			// net/http only reuses a pooled connection when its write loop
+			// reported back within 50 ms, which an overloaded machine can miss.
+			st.add("reruns_connection_reuse_timing", 1)
+			if try == 3 {
+				// Persistently shorter than the parent run: with a large body and a
+				// mid-body drop the part of a non-rewound reader that is left over
+				// for the re-send depends on how far the first write got. The oracle
+				// still applies to what happened; the scripted tail stays unused.
+				st.add("leaves_with_unused_answers", 1)
+				break
+			}
 		}
-		run.Eval(1)
 		if o.Overrun {
 			// the real code asked for one more answer than scripted
 			vs := check(c, o)
@@ -718,12 +751,13 @@ func (w *worker) explore(run *evid.Run, st *stats, cfg Config, thorough bool, de
 					over = true
 				}
 			}
-			if len(prefix) >= 2*maxRT+depthSlack || (over && len(prefix) >= maxRT+depthSlack) {
+			if over {
+				// Send already made more attempts than allowed: a violation by itself, no need to go deeper
 				report(run, st, c, o, vs)
-				if !over {
-					return fmt.Errorf("%v script %v: server asked for more than %d answers without exceeding the attempt bound", cfg, prefix, len(prefix))
-				}
 				return nil
+			}
+			if len(prefix) >= 2*maxRT+depthSlack {
+				return fmt.Errorf("%v script %v: server asked for more than %d answers without exceeding the attempt bound", cfg, prefix, len(prefix))
 			}
 			st.add("interior_nodes", 1)
 			for _, s := range al {
@@ -732,9 +766,6 @@ func (w *worker) explore(run *evid.Run, st *stats, cfg Config, thorough bool, de
 				}
 			}
 			return nil
-		}
-		if len(o.Attempts) < len(prefix) {
-			return fmt.Errorf("%v script %v: only %d answers consumed (enumeration bug)", cfg, prefix, len(o.Attempts))
 		}
 		report(run, st, c, o, check(c, o))
 		return nil
@@ -774,7 +805,62 @@ func report(run *evid.Run, st *stats, c Case, o *Obs, vs []vio) {
 	}
 	for _, v := range vs {
 		st.add("violating_case_clauses", 1)
-		run.Violation(v.fp, map[string]interface{}{"config": c.Config, "script": c.Script, "msg": v.msg, "observed": o})
+		st.violation(v, c, o)
+	}
+}
+
+// violation keeps, per fingerprint, the smallest failing case (fewest retries
+// allowed, shortest script, smallest body) and how many cases hit it.
+func (s *stats) violation(v vio, c Case, o *Obs) {
+	size := c.Config.Retries*10000000 + len(c.Script)*1000000 + c.Config.Size
+	if c.Config.Variant != "default" {
+		size += 400000
+	}
+	if c.Config.Method != "POST" {
+		size += 200000
+	}
+	if c.Config.Conn != "fresh" {
+		size += 100000
+	}
+	s.mu.Lock()
+	defer s.mu.Unlock()
+	if s.vios == nil {
+		s.vios = map[string]*vioRec{}
+	}
+	r := s.vios[v.fp]
+	if r == nil {
+		r = &vioRec{size: size + 1}
+		s.vios[v.fp] = r
+	}
+	r.count++
+	key := c.Config.String() + "|" + strings.Join(c.Script, ",")
+	if size < r.size || (size == r.size && key < r.key) {
+		r.size, r.key = size, key
+		r.detail = map[string]interface{}{"config": c.Config, "script": c.Script, "msg": v.msg, "observed": o}
+	}
+}
+
+type vioRec struct {
+	size   int
+	key    string
+	count  int64
+	detail interface{}
+}
+
+// flush reports the collected violations in a stable order.
+func (s *stats) flush(run *evid.Run) {
+	var fps []string
+	for fp := range s.vios {
+		fps = append(fps, fp)
+	}
+	sort.Strings(fps)
+	byFP := map[string]int64{}
+	for _, fp := range fps {
+		byFP[fp] = s.vios[fp].count
+		run.Violation(fp, s.vios[fp].detail)
+	}
+	if len(fps) > 0 {
+		run.Set("violating_cases_by_fingerprint", byFP)
 	}
 }
 
@@ -795,53 +881,107 @@ func summarize(o *Obs) string {
 	return b.String()
 }
 
-func configs(thorough bool) []Config {
-	var out []Config
-	type bs struct {
-		kind string
-		size int
+// item is one configuration plus the alphabet richness used for its tree.
+type item struct {
+	cfg  Config
+	rich bool
+}
+
+type bs struct {
+	kind string
+	size int
+}
+
+var variants = []string{"default", "accept503", "extra400"}
+
+func product(out *[]item, rich bool, methods map[string][]bs, conns []string, retries []int, vars []string) {
+	var ms []string
+	for m := range methods {
+		ms = append(ms, m)
 	}
-	sizes := []int{0, 3}
-	kinds := []string{"bytes.Reader", "strings.Reader", "bytes.Buffer", "os.File", "readseeker", "io.Reader"}
-	conns := []string{"fresh", "keepalive"}
-	retries := []int{-1, 0, 1, 2}
-	if thorough {
-		sizes = []int{0, 1, 3, 70000}
-		kinds = append(kinds, "os.File@1")
-		conns = append(conns, "warm")
-		retries = append(retries, 3)
-	}
-	bodies := map[string][]bs{}
-	post := []bs{{"none", 0}}
-	for _, k := range kinds {
-		for _, s := range sizes {
-			post = append(post, bs{k, s})
-		}
-	}
-	bodies["POST"] = post
-	bodies["GET"] = []bs{{"none", 0}, {"bytes.Reader", 3}, {"io.Reader", 3}}
-	methods := []string{"POST", "GET"}
-	if thorough {
-		bodies["PUT"] = []bs{{"bytes.Reader", 3}, {"os.File", 3}, {"io.Reader", 70000}}
-		bodies["GET"] = append(bodies["GET"], bs{"bytes.Buffer", 70000}, bs{"readseeker", 3})
-		methods = append(methods, "PUT")
-	}
-	for _, m := range methods {
-		for _, b := range bodies[m] {
+	sort.Strings(ms)
+	for _, m := range ms {
+		for _, b := range methods[m] {
 			for _, cn := range conns {
 				for _, r := range retries {
-					for _, v := range []string{"default", "accept503", "extra400"} {
+					for _, v := range vars {
 						if r < 0 && v == "extra400" {
 							continue // extra retry codes only exist inside SendRetry
 						}
-						out = append(out, Config{Method: m, Body: b.kind, Size: b.size, Conn: cn, Retries: r, Variant: v})
+						*out = append(*out, item{Config{Method: m, Body: b.kind, Size: b.size, Conn: cn, Retries: r, Variant: v}, rich})
 					}
 				}
 			}
 		}
 	}
+}
+
+func bodiesOf(kinds []string, sizes []int) []bs {
+	out := []bs{{"none", 0}}
+	for _, k := range kinds {
+		for _, s := range sizes {
+			out = append(out, bs{k, s})
+		}
+	}
+	return out
+}
+
+// configs lists the configurations of a tier: plain nested loops over the
+// listed domains (each call of product is a full product).
+func configs(thorough bool) []item {
+	var out []item
+	kinds := []string{"bytes.Reader", "strings.Reader", "bytes.Buffer", "os.File", "readseeker", "io.Reader"}
+	if !thorough {
+		all := map[string][]bs{
+			"POST": bodiesOf(kinds, []int{0, 3}),
+			"GET":  {{"none", 0}, {"bytes.Reader", 3}, {"io.Reader", 3}},
+		}
+		product(&out, false, all, []string{"fresh", "keepalive"}, []int{-1, 0, 1}, variants)
+		product(&out, false, map[string][]bs{"POST": {{"bytes.Reader", 3}}, "GET": {{"none", 0}}}, []string{"warm"}, []int{1}, variants)
+		deep := map[string][]bs{
+			"POST": {{"none", 0}, {"bytes.Reader", 3}, {"os.File", 3}, {"io.Reader", 3}},
+			"GET":  {{"bytes.Reader", 3}},
+		}
+		product(&out, false, deep, []string{"fresh", "keepalive"}, []int{2}, []string{"default"})
+		product(&out, false, map[string][]bs{"POST": {{"bytes.Reader", 3}, {"io.Reader", 3}}}, []string{"fresh"}, []int{2}, []string{"accept503", "extra400"})
+	} else {
+		kinds = append(kinds, "os.File@1")
+		conns := []string{"fresh", "keepalive", "warm"}
+		all := map[string][]bs{
+			"POST": bodiesOf(kinds, []int{0, 1, 3, 70000}),
+			"GET":  {{"none", 0}, {"bytes.Reader", 3}, {"io.Reader", 3}, {"bytes.Buffer", 70000}, {"readseeker", 3}},
+			"PUT":  {{"bytes.Reader", 3}, {"os.File", 3}, {"io.Reader", 70000}},
+		}
+		product(&out, true, all, conns, []int{-1, 0, 1}, variants)
+		three := map[string][]bs{
+			"POST": bodiesOf(kinds, []int{3}),
+			"GET":  {{"none", 0}, {"bytes.Reader", 3}, {"io.Reader", 3}, {"readseeker", 3}},
+			"PUT":  {{"bytes.Reader", 3}, {"os.File", 3}},
+		}
+		rest := map[string][]bs{
+			"POST": bodiesOf(kinds, []int{0, 1, 70000})[1:],
+			"GET":  {{"bytes.Buffer", 70000}},
+			"PUT":  {{"io.Reader", 70000}},
+		}
+		two := []string{"fresh", "keepalive"}
+		product(&out, true, three, conns, []int{2}, variants)
+		product(&out, false, rest, two, []int{2}, variants)
+		deep := map[string][]bs{
+			"POST": {{"none", 0}, {"bytes.Reader", 3}, {"bytes.Buffer", 3}, {"os.File", 3}, {"readseeker", 3}, {"io.Reader", 3}},
+			"GET":  {{"none", 0}, {"bytes.Reader", 3}, {"io.Reader", 3}},
+			"PUT":  {{"bytes.Reader", 3}},
+		}
+		product(&out, false, deep, two, []int{3}, []string{"default"})
+		product(&out, false, map[string][]bs{"POST": {{"bytes.Reader", 3}}, "GET": {{"none", 0}}}, []string{"warm"}, []int{3}, []string{"default"})
+		product(&out, false, map[string][]bs{"POST": {{"bytes.Reader", 3}, {"io.Reader", 3}}}, []string{"fresh"}, []int{3}, []string{"accept503", "extra400"})
+	}
 	// biggest trees first for better load balance
-	sort.SliceStable(out, func(i, j int) bool { return out[i].Retries > out[j].Retries })
+	sort.SliceStable(out, func(i, j int) bool {
+		if out[i].cfg.Retries != out[j].cfg.Retries {
+			return out[i].cfg.Retries > out[j].cfg.Retries
+		}
+		return out[i].rich && !out[j].rich
+	})
 	return out
 }
 
@@ -865,19 +1005,56 @@ func replay(run *evid.Run, path string) {
 	}
 	defer w.close()
 	c := Case{Config: f.Case.Config, Script: f.Case.Script}
+	if n, _ := strconv.Atoi(os.Getenv("C34_REPEAT")); n > 0 {
+		// determinism probe: the same case n times on 8 workers, observation summaries counted
+		var mu sync.Mutex
+		seen := map[string]int{}
+		var wg sync.WaitGroup
+		for g := 0; g < 8; g++ {
+			wg.Add(1)
+			go func() {
+				defer wg.Done()
+				w, err := newWorker()
+				if err != nil {
+					run.Fatal(err)
+				}
+				defer w.close()
+				for i := 0; i < n; i++ {
+					o, err := w.exec(c)
+					if err != nil {
+						run.Fatal(err)
+					}
+					k := summarize(o) + " wire:"
+					for _, r := range o.RoundTrips {
+						k += fmt.Sprintf(" %v", r.Wire > 0)
+					}
+					mu.Lock()
+					seen[k]++
+					mu.Unlock()
+				}
+			}()
+		}
+		wg.Wait()
+		for k, v := range seen {
+			fmt.Printf("%6d x %s\n", v, k)
+		}
+	}
 	o, err := w.exec(c)
 	if err != nil {
 		run.Fatal(err)
 	}
-	run.Eval(1)
-	run.Distinct("replay")
-	run.Distinct("replay:" + c.Config.String())
 	out, _ := json.MarshalIndent(o, "", " ")
 	fmt.Printf("replay %v script %v\n%s\n", c.Config, c.Script, out)
-	for _, v := range check(c, o) {
+	vs := check(c, o)
+	sort.Slice(vs, func(i, j int) bool { return vs[i].fp < vs[j].fp })
+	for _, v := range vs {
 		run.Violation(v.fp, map[string]interface{}{"config": c.Config, "script": c.Script, "msg": v.msg, "observed": o})
 	}
-	run.Finish()
+	// no run.Finish(): a replay must not overwrite the tier's evidence file
+	if run.NViolations() > 0 {
+		os.Exit(1)
+	}
+	os.Exit(0)
 }
 
 func main() {
@@ -893,13 +1070,13 @@ func main() {
 	}
 	thorough := run.Thorough()
 	cfgs := configs(thorough)
-	budget := 50 * time.Second
+	budget := 55 * time.Second
 	if thorough {
 		budget = 13 * time.Minute
 	}
 	deadline := time.Now().Add(budget)
 	st := &stats{counters: map[string]int64{}}
-	ch := make(chan Config)
+	ch := make(chan item)
 	var wg sync.WaitGroup
 	var firstErr atomic.Pointer[error]
 	for i := 0; i < evid.Workers(); i++ {
@@ -912,11 +1089,11 @@ func main() {
 				return
 			}
 			defer w.close()
-			for cfg := range ch {
+			for it := range ch {
 				if firstErr.Load() != nil {
 					continue
 				}
-				if err := w.explore(run, st, cfg, thorough, deadline); err != nil {
+				if err := w.explore(run, st, it.cfg, it.rich, deadline); err != nil {
 					firstErr.CompareAndSwap(nil, &err)
 				}
 			}
@@ -930,6 +1107,7 @@ func main() {
 	if e := firstErr.Load(); e != nil {
 		run.Fatal(*e)
 	}
+	st.flush(run)
 	run.Set("configurations", len(cfgs))
 	for k, v := range st.counters {
 		run.Set(k, v)
